@@ -133,11 +133,11 @@ Lemma ensure_ordered_ok : forall b es, (b = true -> ascending_b es = true) ->
   (if b then ensure_ordered es else Ok tt) = Ok tt.
 Proof. intros [|] es H; [|reflexivity]. unfold ensure_ordered. now rewrite H. Qed.
 
-Theorem roundtrip_v3 : forall sh c, c_wf sh c -> c_deserialize sh (c_serialize c) = Ok c.
+Theorem roundtrip_v3 : forall sh c, c_wf sh c -> c_deser_body sh (c_serialize c) = Ok c.
 Proof.
   intros sh c [Hent [Hth0 Hth] [Hsh Hseed] Hord Hemp Hlen].
   destruct codec_consts as [EM [_ [E3 [_ [EF [Emin [Emax _]]]]]]].
-  unfold c_serialize, c_deserialize.
+  unfold c_serialize, c_deser_body.
   set (pre := c_preamble_longs c).
   set (flags := zN GenTheta.FLAGS_IS_READ_ONLY + zN GenTheta.FLAGS_IS_COMPACT
                 + (if ce_empty c then zN GenTheta.FLAGS_IS_EMPTY else 0) + (if ce_ordered c then zN GenTheta.FLAGS_IS_ORDERED else 0)).
@@ -438,7 +438,7 @@ Proof.
 Qed.
 
 Theorem roundtrip_v4 : forall sh c, c_wf sh c -> c_is_suitable_for_compression c = true ->
-  exists bs, c_serialize_v4 c = Ok bs /\ c_deserialize sh bs = Ok c.
+  exists bs, c_serialize_v4 c = Ok bs /\ c_deser_body sh bs = Ok c.
 Proof.
   intros sh c Hwf Hsuit.
   destruct (v4_facts c (wf_safe sh c Hwf) Hsuit) as [Hch [Hne [Ho [Hceb [Hdel [Hw1 [Hw63 [Hds Hdl]]]]]]]].
@@ -463,7 +463,7 @@ Proof.
   assert (Hneb : neb = (N.size n + 7) / 8) by (unfold neb, num_entries_bytes; now rewrite Hnm).
   assert (Hneb4 : neb <= 4).
   { rewrite Hneb. assert (N.size n <= 32) by (apply size_le; exact Hlen). lia. }
-  unfold c_deserialize. cbn [app]. do 3 (rewrite rd_cons; cbn [obind]).
+  unfold c_deser_body. cbn [app]. do 3 (rewrite rd_cons; cbn [obind]).
   rewrite E4, EF, Emin, Emax, N.eqb_refl. cbn [negb].
   set (pre := if c_is_estimation_mode c then 2 else 1).
   assert (Hpre : 1 <= pre /\ pre <= 3) by (unfold pre; destruct (c_is_estimation_mode c); lia).
@@ -509,7 +509,7 @@ Qed.
 
 (* serialize_compressed: whichever form it picks, the reader returns the sketch *)
 Theorem roundtrip_compressed : forall sh c, c_wf sh c ->
-  exists bs, c_serialize_compressed c = Ok bs /\ c_deserialize sh bs = Ok c.
+  exists bs, c_serialize_compressed c = Ok bs /\ c_deser_body sh bs = Ok c.
 Proof.
   intros sh c Hwf. unfold c_serialize_compressed.
   destruct (c_is_suitable_for_compression c) eqn:E.
@@ -636,9 +636,9 @@ Proof.
     + inversion H. cbn [length]. lia.
 Qed.
 
-Theorem deserialize_never_stuck : forall sh bs, bytes_lt bs -> c_deserialize sh bs <> Stuck.
+Theorem deserialize_never_stuck : forall sh bs, bytes_lt bs -> c_deser_body sh bs <> Stuck.
 Proof.
-  intros sh bs Hb. unfold c_deserialize.
+  intros sh bs Hb. unfold c_deser_body.
   apply obind_ns; [apply rd_not_stuck|]. intros [pre bs1] H1. destruct (rd_bytes _ _ _ _ Hb H1) as [Hb1 _].
   apply obind_ns; [apply rd_not_stuck|]. intros [ver bs2] H2. destruct (rd_bytes _ _ _ _ Hb1 H2) as [Hb2 _].
   apply obind_ns; [apply rd_not_stuck|]. intros [fam bs3] H3. destruct (rd_bytes _ _ _ _ Hb2 H3) as [Hb3 _].
@@ -709,10 +709,10 @@ Lemma ordered_if_inv : forall (b : bool) es u0,
 Proof. intros b es u0 H ->. eapply ensure_ordered_inv; eauto. Qed.
 
 (* whatever the reader accepts is usable, and its size is justified by the input length *)
-Theorem deserialize_ok_safe : forall sh bs c, bytes_lt bs -> c_deserialize sh bs = Ok c ->
+Theorem deserialize_ok_safe : forall sh bs c, bytes_lt bs -> c_deser_body sh bs = Ok c ->
   c_safe c /\ (length (ce_entries c) <= 8 * length bs)%nat.
 Proof.
-  intros sh bs c Hb H. unfold c_deserialize in H.
+  intros sh bs c Hb H. unfold c_deser_body in H.
   apply obind_ok in H as [[pre bs1] [H1 H]]. destruct (rd_bytes _ _ _ _ Hb H1) as [Hb1 _]. apply rd_ok_length in H1 as [L1 _].
   apply obind_ok in H as [[ver bs2] [H2 H]]. destruct (rd_bytes _ _ _ _ Hb1 H2) as [Hb2 _]. apply rd_ok_length in H2 as [L2 _].
   apply obind_ok in H as [[fam bs3] [H3 H]]. destruct (rd_bytes _ _ _ _ Hb2 H3) as [Hb3 _]. apply rd_ok_length in H3 as [L3 _].
@@ -866,9 +866,9 @@ Proof. intros n th H. apply andb_prop in H as [H1 H2]. apply N.eqb_eq in H1, H2.
 Lemma nil_of_len0 : forall (es : list N), N.of_nat (length es) = 0 -> es = [].
 Proof. intros [|e es] H; [reflexivity|cbn [length] in H; lia]. Qed.
 
-Theorem deserialize_ok_wf : forall sh bs c, sh < 65536 -> bytes_lt bs -> c_deserialize sh bs = Ok c -> c_wf sh c.
+Theorem deserialize_ok_wf : forall sh bs c, sh < 65536 -> bytes_lt bs -> c_deser_body sh bs = Ok c -> c_wf sh c.
 Proof.
-  intros sh bs c Hsh Hb H. unfold c_deserialize in H.
+  intros sh bs c Hsh Hb H. unfold c_deser_body in H.
   apply obind_ok in H as [[pre bs1] [H1 H]]. destruct (rd_step _ _ _ _ Hb H1) as [Hb1 _].
   apply obind_ok in H as [[ver bs2] [H2 H]]. destruct (rd_step _ _ _ _ Hb1 H2) as [Hb2 _].
   apply obind_ok in H as [[fam bs3] [H3 H]]. destruct (rd_step _ _ _ _ Hb2 H3) as [Hb3 _].
@@ -976,9 +976,9 @@ Proof.
 Qed.
 
 (* so the round trips of C11 apply to everything the reader returns *)
-Theorem deserialized_roundtrips : forall sh bs c, sh < 65536 -> bytes_lt bs -> c_deserialize sh bs = Ok c ->
-  c_deserialize sh (c_serialize c) = Ok c /\
-  exists bs', c_serialize_compressed c = Ok bs' /\ c_deserialize sh bs' = Ok c.
+Theorem deserialized_roundtrips : forall sh bs c, sh < 65536 -> bytes_lt bs -> c_deser_body sh bs = Ok c ->
+  c_deser_body sh (c_serialize c) = Ok c /\
+  exists bs', c_serialize_compressed c = Ok bs' /\ c_deser_body sh bs' = Ok c.
 Proof.
   intros sh bs c Hsh Hb H. pose proof (deserialize_ok_wf sh bs c Hsh Hb H) as Hwf.
   split; [now apply roundtrip_v3|now apply roundtrip_compressed].
@@ -1002,4 +1002,53 @@ Proof.
   assert (Hm2 : (m * eb + 7) mod 8 < 8) by (apply N.mod_lt; lia).
   set (t := (m * eb + 7) / 8) in *. set (u2' := (m * eb + 7) mod 8) in *. set (x := q * eb) in *. set (y := m * eb) in *.
   clearbody q m t u2' x y. lia.
+Qed.
+
+(* ====================== the entry point deserialize_with_seed ======================
+   [c_deserialize sh] first rejects a seed whose seed hash is zero (Err), then runs the reader
+   [c_deser_body] about which everything above is stated. *)
+Lemma deser_ep : forall sh bs, sh <> 0 -> c_deserialize sh bs = c_deser_body sh bs.
+Proof. intros sh bs H. unfold c_deserialize. destruct (N.eqb_spec sh 0); [contradiction|reflexivity]. Qed.
+
+Lemma deser_zero_seed : forall bs, c_deserialize 0 bs = Err.
+Proof. reflexivity. Qed.
+
+Lemma deser_ok_seed : forall sh bs c, c_deserialize sh bs = Ok c -> sh <> 0 /\ c_deser_body sh bs = Ok c.
+Proof. intros sh bs c H. unfold c_deserialize in H. destruct (N.eqb_spec sh 0); [discriminate|auto]. Qed.
+
+Theorem ep_roundtrip_v3 : forall sh c, sh <> 0 -> c_wf sh c -> c_deserialize sh (c_serialize c) = Ok c.
+Proof. intros. rewrite deser_ep by assumption. now apply roundtrip_v3. Qed.
+
+Theorem ep_roundtrip_v4 : forall sh c, sh <> 0 -> c_wf sh c -> c_is_suitable_for_compression c = true ->
+  exists bs, c_serialize_v4 c = Ok bs /\ c_deserialize sh bs = Ok c.
+Proof.
+  intros sh c Hs Hwf Hsu. destruct (roundtrip_v4 sh c Hwf Hsu) as [bs [H1 H2]]. exists bs. split; [exact H1|].
+  rewrite deser_ep by assumption. exact H2.
+Qed.
+
+Theorem ep_roundtrip_compressed : forall sh c, sh <> 0 -> c_wf sh c ->
+  exists bs, c_serialize_compressed c = Ok bs /\ c_deserialize sh bs = Ok c.
+Proof.
+  intros sh c Hs Hwf. destruct (roundtrip_compressed sh c Hwf) as [bs [H1 H2]]. exists bs. split; [exact H1|].
+  rewrite deser_ep by assumption. exact H2.
+Qed.
+
+Theorem ep_never_stuck : forall sh bs, bytes_lt bs -> c_deserialize sh bs <> Stuck.
+Proof.
+  intros sh bs Hb. unfold c_deserialize. destruct (sh =? 0); [discriminate|now apply deserialize_never_stuck].
+Qed.
+
+Theorem ep_ok_safe : forall sh bs c, bytes_lt bs -> c_deserialize sh bs = Ok c ->
+  c_safe c /\ (length (ce_entries c) <= 8 * length bs)%nat.
+Proof. intros sh bs c Hb H. apply deser_ok_seed in H as [_ H]. eapply deserialize_ok_safe; eauto. Qed.
+
+Theorem ep_ok_wf : forall sh bs c, sh < 65536 -> bytes_lt bs -> c_deserialize sh bs = Ok c -> sh <> 0 /\ c_wf sh c.
+Proof. intros sh bs c Hs Hb H. apply deser_ok_seed in H as [H0 H]. split; [exact H0|]. eapply deserialize_ok_wf; eauto. Qed.
+
+Theorem ep_deserialized_roundtrips : forall sh bs c, sh < 65536 -> bytes_lt bs -> c_deserialize sh bs = Ok c ->
+  c_deserialize sh (c_serialize c) = Ok c /\
+  exists bs', c_serialize_compressed c = Ok bs' /\ c_deserialize sh bs' = Ok c.
+Proof.
+  intros sh bs c Hs Hb H. destruct (ep_ok_wf sh bs c Hs Hb H) as [H0 Hwf].
+  split; [now apply ep_roundtrip_v3|now apply ep_roundtrip_compressed].
 Qed.
